@@ -78,6 +78,10 @@ CLAIMS["C11"] = dict(
     text="Deductive proof of the dispatch of the real compute_output_geobox over ghost collaborators, for every combination of {own CRS, other CRS with same / different units, utm request} x {auto, fit, same, number, Resolution, unknown keyword} x {no shape, (ny,nx), n} x anchor/tight x tol x round_resolution: the source is returned unchanged exactly for own CRS + default options; otherwise the result is GeoBox.from_bbox of the footprint's bounding box (buffer 0.9 source pixels, 100 points per side) in the CRS the footprint resolved to, with shape/tight/anchor/tol passed through and the resolution chosen by the documented rule (source resolution for same units, square inverted-Y mean of the centre-pixel fit otherwise, the explicit value, none when a shape is given). GeoBox.from_bbox (C08 contracts: covers the box up to tol, axis aligned, anchor alignment, < 1 pixel excess/displacement, exact shape) carries the enclosure of the footprint; footprint buffers by +0.9 x max|pixel size| for every grid orientation (lemma); utm / utm-n / utm-s: exhaustive enumeration of the 60 x 2 WGS84 zones x 5 spellings on the real norm_crs (same zone, requested hemisphere).",
     note="that the buffered, densified, projected footprint contains the projected position of every source pixel is shapely/pyproj geometry: ASSUMED, with a BOUNDED native end-to-end check (9 source grids incl. rotated/mirrored/south-up, metre and degree based, 8 km to continental x 6-8 target CRSs x 9-13 option sets = 576 requests, 729 source positions each); CRS.utm's choice of zone (pyproj database query + valid-area overlap) only by that bounded check; KNOWN FINDING: shape=<int> without tight gives N+1 pixels on the longest side",
     technique=TECH + "; exhaustive enumeration for the finite utm zone arithmetic", design_ref="DESIGN.md §2 C11")
+CLAIMS["C15"] = dict(
+    text="Deductive proof of the library's own part of the write, on the real code over a ghost file system / ghost rasterio that records every call: check_write_path (IOError iff the destination exists and overwriting was not requested, removed iff it exists and it was, untouched otherwise); _default_cog_opts (tiled, block sides = adjust_blocksize: multiples of 16, image side when smaller; predictor by dtype kind; caller's options kept); _norm_compression_opts (exact); _write_cog data flow for YX / band-first / band-last images with symbolic sides: overwrite guard once and before anything is opened (never for memory), band axis moved first, all pixels written once with band indexes 1..n (block by block when windowed), default overview levels (none under 512 px, 2..32 otherwise) or exactly the requested ones, built once after the pixels and before the single copy with copy_src_overviews, creation options of the final file = the image's size / band count / dtype / CRS / transform / nodata + tiling; write_cog / write_cog_layers: band axis by dimension name, nodata = explicit keyword else attribute else none for computed AND externally supplied overviews, every layer to its own side-car with its own GeoBox, one final copy.",
+    note="that GDAL encodes and independent readers decode the same pixels / transform / CRS / nodata, and GDAL's actual block and overview layout, are GDAL/tifffile behaviour: ASSUMED, with a BOUNDED native round-trip check reading back with rasterio AND tifffile (18 fixed + 50 quick / 260 thorough combinations of shape x band layout x dtype incl. int8/float64 x nodata incl. nan via attrs or keyword x CRS x rotated x block size x overview lists x external overviews x windowed x intermediate compression x file/memory x existing destination with/without overwrite); the transform compared is the one of the DataArray handed to the writer (its GeoBox as recovered from the coordinates, C09)",
+    technique=TECH + "; ghost file system / ghost I/O library recording the call sequence", design_ref="DESIGN.md §2 C15")
 NA = {
     "C09": "xarray object-model behaviour (coords/attrs/encoding propagation); no contract within reach can state it - see DESIGN.md C09",
     "C13": "equality of GDAL warps (whole vs chunked) and dask scheduling; no contract within reach - see DESIGN.md C13",
